@@ -1,5 +1,6 @@
 """C15 — channel state is discarded only when safely buried, and ids are never reused."""
 import lib
+import gen_rustfn
 
 MANIFEST = dict(
     text="Coq theorems over the model of Node::new_channel / setup_channel / forget_channel / prune_channels (from "
@@ -14,7 +15,7 @@ MANIFEST = dict(
          "or a lower dbid is refused and creates nothing, restarts included).  The model is run against a real Node on a "
          "MemoryKVVStore persister (real tracker, real funding / commitment transactions, restarts from the store) on the "
          "same histories on every run; MIN_DEPTH and the stub prune constants are read from the source under test and "
-         "compared with the model's; a monitor checks the property itself against the harness's own record of the chain.",
+         "compared with the model's; a monitor checks the property itself against the harness's own record of the chain.  C15_done_decision_is_source: the monitor's done-decision IS the source's - monitor::State::depth_of, ::deep_enough_and_saw_node_forget and ::is_done (with MIN_DEPTH) are translated on every run by tools/gen_rustfn.py (Gen/MonitorGen.v) and proved equal to Monitor.is_done in both build profiles.",
     design="§4 C15",
     note=lib.TB + "Uses the C14 theorems (Proofs/MonitorProofs.v: history, Reach, norm_views) for what a channel "
          "monitor knows after connections and disconnections.  Modelled, not verified: the classification of a funding "
@@ -36,7 +37,20 @@ def slim(c):
 
 def run(res):
     quick = res.tier == "quick"
-    lib.proof_stage(res, "C15.v", "Props.C15", PINNED)
+    # the translator regenerates Gen/MonitorGen.v from /repo's monitor.rs under the build lock, right before the
+    # theorem that relates it to the model's is_done is re-checked
+    report = {}
+
+    def regen():
+        report.update(gen_rustfn.generate_monitor(lib.REPO))
+    try:
+        lib.proof_stage(res, "C15.v", "Props.C15", PINNED + ["C15_done_decision_is_source"], pre=regen)
+    except gen_rustfn.GenError as e:
+        res.violation("the translator cannot read monitor::State::depth_of / deep_enough_and_saw_node_forget / is_done (a "
+                      "construct outside its fragment): %s" % e,
+                      {"translator": "tools/gen_rustfn.py", "source": "vls-core/src/monitor.rs", "error": str(e),
+                       "theorem": "C15_done_decision_is_source"}, has_input=False)
+    res.coverage["translated_from_source"] = report
     cov = res.coverage
     sizes = [("scripted", 1), ("random", 150), ("malformed", 80)] if quick else \
             [("scripted", 1), ("random", 4000), ("malformed", 1500)]
